@@ -31,7 +31,11 @@
 namespace PL
 {
    using namespace T;
+#ifdef VERIF_DEPTH_INPUT
+   using In = p::input_with_depth< p::memory_input< VERIF_TRACK, VERIF_EOL, std::string > >;
+#else
    using In = p::memory_input< VERIF_TRACK, VERIF_EOL, std::string >;
+#endif
 
    struct Cfg
    {
@@ -70,6 +74,13 @@ namespace PL
          FAM( 5, act_bool )
          FAM( 6, act_bool0 )
          FAM( 7, act_boolmix )
+         FAM( 8, fam8 )
+         FAM( 9, fam9 )
+         FAM( 10, fam10 )
+         FAM( 11, fam11 )
+         FAM( 12, fam12 )
+         FAM( 13, fam13 )
+         FAM( 14, fam14 )
 #undef FAM
       }
       fprintf( stderr, "FATAL: action family %d not compiled into this unit\n", c.fam );
@@ -87,6 +98,9 @@ namespace PL
          case 2:
             if constexpr( ( ( VERIF_CTLS ) & 4 ) != 0 ) return run_fam< mon_all >( c, in, fuel_limit );
             break;
+         case 3:
+            if constexpr( ( ( VERIF_CTLS ) & 8 ) != 0 ) return run_fam< mon1 >( c, in, fuel_limit );
+            break;
       }
       fprintf( stderr, "FATAL: control %d not compiled into this unit\n", c.ctl );
       abort();
@@ -102,6 +116,9 @@ namespace PL
    inline std::string raise_message_of( int who )
    {
       if( who == R::WHO_RAISE_MSG ) return "rmsg";
+      if( who == R::WHO_LIMIT_DEPTH ) return "maximum parser rule nesting depth exceeded";
+      if( who == R::WHO_LIMIT_BYTES ) return "maximum allowed rule consumption reached";
+      if( who == R::WHO_CHECK_BYTES ) return "maximum allowed rule consumption exceeded";
       return "parse error matching " + node_names[ who ];
    }
 
